@@ -34,7 +34,7 @@ class Interner:
             nm = "%s%d" % (kind, len(self.names))
             self.names[key] = nm
             if kind == "s" and len(content) > 1000 and len(set(content)) == 1 and 32 < ord(content[0]) < 127 and content[0] != '"':
-                self.defs.append('Definition %s : string := Eval vm_compute in rep_char "%s" (N.to_nat %d%%N).' % (nm, content[0], len(content)))
+                self.defs.append('Definition %s : string := rep_char "%s" %d%%N.' % (nm, content[0], len(content)))
             elif kind == "s":
                 self.defs.append("Definition %s : string := %s." % (nm, coq_string(content)))
             else:
